@@ -1,5 +1,6 @@
 import G3D.Proofs.Tol
 import G3D.Extracted.Sites
+import G3D.Extracted.Consts
 import G3D.Proofs.TolUnique
 import G3D.Proofs.RoundStable
 /-! # C19 — tolerance is uniform and follows set_eps / set_sig_figures  (partial)
@@ -23,6 +24,13 @@ theorem defaults : Inv init ∧ init.eps = 1 / pow10 10 ∧ init.sig = 10 ∧
     step init .setSigDefault = some init := by
   refine ⟨init_inv, rfl, rfl, ?_⟩
   simp [step, setSig, init, pow10neg]
+
+/-- the defaults of the CURRENT source (extracted): SIG_FIGURES = 10, FLOAT_EPS = 1/(10**SIG_FIGURES), and the default
+    arguments of both setters are the model's initial configuration -/
+theorem defaults_extracted : sigFiguresInit = init.sig ∧ floatEpsInitSrc = "1/(10**SIG_FIGURES)" ∧
+    setEpsDefault = init.eps ∧ setSigDefault = init.sig := by
+  refine ⟨by decide, by decide, ?_, by decide⟩
+  simp only [setEpsDefault, init, pow10]; norm_num
 
 /-- power-of-ten settings: `set_sig_figures(n)` gives `eps = 10^(-n)` -/
 theorem power_of_ten (c : Cfg) (n : Nat) : (setSig c n).eps = 1 / pow10 n ∧ (setSig c n).sig = n ∧ Inv (setSig c n) := by
